@@ -105,31 +105,7 @@ func buildTranscoder(cfg *ConfigPlan, mk func(svc *ServicePlan, sch *Schema, unk
 		if sch == nil {
 			return nil, fmt.Errorf("unknown schema %q", sp.Schema)
 		}
-		var opts []vanguard.ServiceOption
-		if sp.Protocols != nil {
-			var ps []vanguard.Protocol
-			for _, p := range sp.Protocols {
-				ps = append(ps, toVanguardProtocol(p))
-			}
-			opts = append(opts, vanguard.WithTargetProtocols(ps...))
-		}
-		if sp.Codecs != nil {
-			opts = append(opts, vanguard.WithTargetCodecs(sp.Codecs...))
-		}
-		if sp.NoCompression {
-			opts = append(opts, vanguard.WithNoTargetCompression())
-		} else if sp.Compression != nil {
-			opts = append(opts, vanguard.WithTargetCompression(sp.Compression...))
-		}
-		if sp.MaxMsg != 0 {
-			opts = append(opts, vanguard.WithMaxMessageBufferBytes(sp.MaxMsg))
-		}
-		if sp.MaxGetURL != 0 {
-			opts = append(opts, vanguard.WithMaxGetURLBytes(sp.MaxGetURL))
-		}
-		if sp.DiscardUnknownQuery {
-			opts = append(opts, vanguard.WithRESTUnmarshalOptions(vanguard.RESTUnmarshalOptions{DiscardUnknownQueryParams: true}))
-		}
+		opts := serviceOpts(sp)
 		h := mk(sp, sch, false)
 		if cfg.DefaultsOnly && i == 0 {
 			defaults = opts
@@ -162,6 +138,9 @@ func buildTranscoder(cfg *ConfigPlan, mk func(svc *ServicePlan, sch *Schema, unk
 		vanguard.WithCompression("gzip", func() connect.Compressor { return newSimCompressor("gzip") }, func() connect.Decompressor { return newSimDecompressor("gzip") }),
 		vanguard.WithCompression("deflate", func() connect.Compressor { return newSimCompressor("deflate") }, func() connect.Decompressor { return newSimDecompressor("deflate") }),
 	)
+	if cfg.Defaults != nil {
+		defaults = append(serviceOpts(cfg.Defaults), defaults...)
+	}
 	if len(defaults) > 0 {
 		topts = append(topts, vanguard.WithDefaultServiceOptions(defaults...))
 	}
@@ -181,6 +160,7 @@ func buildTranscoder(cfg *ConfigPlan, mk func(svc *ServicePlan, sch *Schema, unk
 func (r *RulePlan) toProto() *annotations.HttpRule {
 	hr := &annotations.HttpRule{Selector: r.Selector, Body: r.Body, ResponseBody: r.RespBody}
 	switch {
+	case r.NoPattern:
 	case r.Custom:
 		hr.Pattern = &annotations.HttpRule_Custom{Custom: &annotations.CustomHttpPattern{Kind: r.Method, Path: r.Template}}
 	case r.Method == "GET":
@@ -214,11 +194,44 @@ func toVanguardProtocol(p string) vanguard.Protocol {
 	return vanguard.Protocol(99)
 }
 
+func serviceOpts(sp *ServicePlan) []vanguard.ServiceOption {
+	var opts []vanguard.ServiceOption
+	if sp.EmptyProtocols {
+		opts = append(opts, vanguard.WithTargetProtocols())
+	} else if sp.Protocols != nil {
+		var ps []vanguard.Protocol
+		for _, p := range sp.Protocols {
+			ps = append(ps, toVanguardProtocol(p))
+		}
+		opts = append(opts, vanguard.WithTargetProtocols(ps...))
+	}
+	if sp.EmptyCodecs {
+		opts = append(opts, vanguard.WithTargetCodecs())
+	} else if sp.Codecs != nil {
+		opts = append(opts, vanguard.WithTargetCodecs(sp.Codecs...))
+	}
+	if sp.NoCompression {
+		opts = append(opts, vanguard.WithNoTargetCompression())
+	} else if sp.Compression != nil {
+		opts = append(opts, vanguard.WithTargetCompression(sp.Compression...))
+	}
+	if sp.MaxMsg != 0 {
+		opts = append(opts, vanguard.WithMaxMessageBufferBytes(sp.MaxMsg))
+	}
+	if sp.MaxGetURL != 0 {
+		opts = append(opts, vanguard.WithMaxGetURLBytes(sp.MaxGetURL))
+	}
+	if sp.DiscardUnknownQuery {
+		opts = append(opts, vanguard.WithRESTUnmarshalOptions(vanguard.RESTUnmarshalOptions{DiscardUnknownQueryParams: true}))
+	}
+	return opts
+}
+
 // makeService registers the schema the way sp.Via says (C20 varies this; default depends on schema).
 func makeService(sp *ServicePlan, sch *Schema, h http.Handler, opts []vanguard.ServiceOption) (*vanguard.Service, any, error) {
 	via := sp.Via
 	if via == "" {
-		if sp.Schema == "sim" || sp.Schema == "sim2" {
+		if sp.Schema == "sim" || sp.Schema == "sim2" || sp.Schema == "bare" {
 			via = "schema"
 		} else {
 			via = "name"
